@@ -173,7 +173,7 @@ func runLifetime(c *sim.RunCtx, pp *persistPlan, m *media, o *lifetimeOpts) *lif
 		w := &storeWorld{c: c, s: s, cfg: cfg, e: e, ctx: context.Background(), insts: pp.insts, m: o.model}
 		w.allocs = func() int {
 			if e.alloc == nil {
-				return o.baseAllocs
+				return o.baseAllocs + e.collectorAllocations()
 			}
 			return o.baseAllocs + e.alloc.Allocs
 		}
